@@ -4,11 +4,11 @@
    ciphertext of a packet protected per RFC 9001 5.3-5.4 are recovered exactly) and C02_one_rtt_datagram (the session that holds the
    sender's keys adds exactly the data of the packet's STREAM frames to its output); key selection across key updates:
    C02_key_phase_*; packet numbers: C16; key schedule: C15; frames: C17; CRYPTO reassembly: C02_crypto_frames_any_order.
-   Handshake packets: C02_handshake_packet_extracted.  Initial and 0-RTT packets, connection-ID matching and Retry are decided by the reference sender and the
+   Handshake and Initial packets: C02_handshake_packet_extracted, C02_initial_packet_extracted.  0-RTT packets, connection-ID matching and Retry are decided by the reference sender and the
    correspondence of this model with the implementation (tools/props/c02.py). *)
 From Coq Require Import ZArith List Bool.
 From Coq Require Import Permutation.
-Require Import PyLib SuiteTypes Crypto KeySchedule QuicKeys QuicPn QuicDissector QuicFrames QuicTls QuicSession TlsRecords QuicPackets QuicBuildP QuicEpochP QuicCryptoP C17RoundP QuicShortP QuicLongPackets QuicLongP.
+Require Import PyLib SuiteTypes Crypto KeySchedule QuicKeys QuicPn QuicDissector QuicFrames QuicTls QuicSession TlsRecords QuicPackets QuicBuildP QuicEpochP QuicCryptoP C17RoundP QuicShortP QuicLongPackets QuicLongP QuicInitialP.
 Import ListNotations.
 Open Scope Z_scope.
 
@@ -130,3 +130,20 @@ Theorem C02_handshake_packet_extracted : forall C, CryptoLaws C ->
     Ok ([ mk_long QHandshake srv ts [first] version [len dcid] dcid [len scid] scid [] [] plb pnb ct [] ], rest).
 Proof. exact extract_handshake. Qed.
 Print Assumptions C02_handshake_packet_extracted.
+
+(* An Initial packet (first byte 1100xxxx, token with its varint length, always the AES mask) followed by anything: the same. *)
+Theorem C02_initial_packet_extracted : forall C, CryptoLaws C ->
+  forall a (hp key iv : bytes) first (version dcid scid token pnb pn8 payload d rest g : bytes) w wt ts (srv chacha : bool) keys,
+  192 <= first < 208 -> len pnb = Z.land first 3 + 1 -> len version = 4 -> from_be version <> 0 -> bytes_ok version ->
+  len dcid < 256 -> len scid < 64 -> bytes_ok dcid -> bytes_ok scid -> bytes_ok pnb -> bytes_ok rest ->
+  wok w -> len pnb + len payload + 16 < 2 ^ (8 * w - 2) -> 4 <= len pnb + len payload -> wok wt -> len token < 2 ^ (8 * wt - 2) -> bytes_ok token ->
+  (if srv then hp_server_initial keys else hp_client_initial keys) = Some hp ->
+  protect_initial C a hp key iv first version dcid scid token pnb pn8 payload w wt = Ok d ->
+  (forall sample mask, c_ecb_enc C hp sample = Ok mask -> 5 <= len mask /\ bytes_ok mask) ->
+  (forall nonce pt aad ct, c_aead_enc C a 16 key nonce pt aad = Ok ct -> bytes_ok ct) ->
+  let plb := enc_var (len pnb + len payload + 16) w in let tlb := enc_var (len token) wt in
+  exists ct, c_aead_enc C a 16 key (quic_nonce iv pn8) payload (([first] ++ version ++ [len dcid] ++ dcid ++ [len scid] ++ scid ++ tlb ++ token ++ plb) ++ pnb) = Ok ct /\
+  extract_inner C (d ++ rest) ts srv g keys chacha =
+    Ok ([ mk_long QInitial srv ts [first] version [len dcid] dcid [len scid] scid tlb token plb pnb ct [] ], rest).
+Proof. exact extract_initial. Qed.
+Print Assumptions C02_initial_packet_extracted.
